@@ -1502,7 +1502,11 @@ package collection
 //@   view view(this.values_)
 //@   modelfield capacity this.capacity_
 //@   guarded_by mutex_: values_, available_
-//@   invariant this.class_ != nil && this.values_ != nil && this.available_ != nil && this.capacity_ >= 1
+//@   invariant this.class_ != nil && this.capacity_ >= 1
+//@   invariant this.values_ != nil && this.available_ != nil
+// what holds of the guarded state whenever mutex_ is free, whatever the other threads are doing (the quiescent
+// invariant below does not: a producer that has appended its value but not yet published the token is in between)
+//@   lockinv[C04] this.values_ != nil && this.available_ != nil && chancap(this.available_) == this.capacity_ && 0 <= chanlen(this.available_) && chanlen(this.available_) <= chancap(this.available_)
 //@   invariant[C04] chanlen(this.available_) == len(view(this.values_)) && chancap(this.available_) == this.capacity_ && len(view(this.values_)) <= this.capacity_
 
 //@ iface QueueClassLike.Notation
@@ -1560,6 +1564,7 @@ package collection
 //@   implements QueueLike.GetCapacity
 //@ func (*queue_).AddValue
 //@   props C04 C05 C19
+//@   interfered
 //@   mayblock
 //@   nopanic
 //@   requires !held(qmutex(this)) && !chanclosed(this.available_)
@@ -1568,6 +1573,7 @@ package collection
 //@   ensures[C04,C05] old(len(view(this))) < this.capacity_
 //@ func (*queue_).RemoveHead
 //@   props C04 C05 C19
+//@   interfered
 //@   mayblock
 //@   nopanic
 //@   requires !held(qmutex(this))
@@ -1577,18 +1583,21 @@ package collection
 //@   ensures[C04] !result.1 ==> old(len(view(this))) == 0 && chanclosed(this.available_) && view(this) == old(view(this)) && result.0 == zero(V)
 //@ func (*queue_).RemoveAll
 //@   props C04 C19
+//@   interfered
 //@   nopanic
 //@   requires !held(qmutex(this))
 //@   modifies this.values_, this.available_, held(qmutex(this))
 //@   ensures[C04] !held(qmutex(this)) && view(this) == empty()
 //@ func (*queue_).CloseQueue
 //@   props C04 C19
+//@   interfered
 //@   requires !held(qmutex(this))
 //@   modifies held(qmutex(this))
 //@   ensures[C04] !held(qmutex(this)) && chanclosed(this.available_) && view(this) == old(view(this))
 //@   xensures[C04] !held(qmutex(this)) || old(chanclosed(this.available_))
 //@ func (*queue_).IsEmpty
 //@   props C04 C19
+//@   interfered
 //@   nopanic
 //@   requires !held(qmutex(this))
 //@   modifies held(qmutex(this))
@@ -1599,8 +1608,10 @@ package collection
 //@   requires !held(qmutex(this))
 //@   modifies held(qmutex(this))
 //@   ensures[C04] !held(qmutex(this)) && result == len(view(this)) && result <= this.capacity_
+//@   iensures[C04] 0 <= result && result <= this.capacity_
 //@ func (*queue_).AsArray
 //@   props C04 C18 C19
+//@   interfered
 //@   nopanic
 //@   requires !held(qmutex(this))
 //@   modifies held(qmutex(this))
